@@ -28,8 +28,8 @@
 //   missed-element     an element present THROUGHOUT the iteration was not yielded.  Conservative: the operation that
 //                      added it completed before the iteration began and NO successful erase / replacing update /
 //                      erase_at of its key that ended after the addition was invoked was invoked before the iteration ended
-//   duplicate-element  (IterableList and the hash sets over it) the same element yielded twice
-//   order              (IterableList) keys of consecutive yielded elements not strictly increasing
+//   duplicate-element  (IterableList and the hash sets over it) an element present throughout yielded twice
+//   order              (IterableList) keys of the yielded elements that were present throughout not strictly increasing
 //   phantom            a yielded element that was never added, or whose addition was invoked after it was yielded, or
 //                      whose removal had completed before the iterator step that yielded it began
 //   erase-at-true-but-present   erase_at returned true but the element is found afterwards (by a find invoked
@@ -867,6 +867,7 @@ struct Fixture {
 
         // ---- (b) missed-element
         std::multiset<long> seen;
+        std::set<long> throughout;       // elements certainly present for the whole iteration: what C19's "exactly once / in order / at least once" clauses speak about
         for ( Visit const& v : it.v ) seen.insert( v.id );
         for ( Add const& a : adds ) {
             if ( !( a.res < it.t_begin )) continue;          // not certainly present when the iteration began
@@ -874,6 +875,7 @@ struct Fixture {
             for ( Rem const& r : rems )
                 if ( r.key == a.key && r.res > a.inv && r.inv < it.t_end ) { touched = true; break; }
             if ( touched ) continue;                         // conservative: some removal of this key may have hit it
+            throughout.insert( a.id );
             if ( !seen.count( a.id )) {
                 std::ostringstream os;
                 os << "element " << a.key << ':' << a.id << " added by " << a.how << iv( a.inv, a.res )
@@ -884,20 +886,30 @@ struct Fixture {
         }
 
         // ---- (c) duplicate-element
+        // (only for elements present throughout: the property says nothing about an element that is added, removed or
+        //  replaced while the iteration runs)
         if ( c->once )
             for ( auto i = seen.begin(); i != seen.end(); i = seen.upper_bound( *i ))
-                if ( seen.count( *i ) > 1 )
+                if ( seen.count( *i ) > 1 && throughout.count( *i ))
                     raise( "duplicate-element", "element " + std::to_string( *i ) + " yielded " + std::to_string( seen.count( *i )) + " times" );
 
         // ---- (d) order
-        if ( c->ordered )
-            for ( size_t i = 1; i < it.v.size(); ++i )
-                if ( !( it.v[i - 1].key < it.v[i].key )) {
+        // Among the elements present throughout.  (An element inserted while the iteration runs can be yielded out of
+        // order: an insert may reuse the emptied node the iterator stands on and put a smaller key behind it.  The
+        // property does not cover such elements; first version of this oracle did and raised a false alarm.)
+        if ( c->ordered ) {
+            Visit const* prev = nullptr;
+            for ( size_t i = 0; i < it.v.size(); ++i ) {
+                if ( !throughout.count( it.v[i].id )) continue;
+                if ( prev && !( prev->key < it.v[i].key )) {
                     std::ostringstream os;
                     os << "key " << it.v[i].key << " (element " << it.v[i].id << ", at " << it.v[i].t_arrive << ") yielded after key "
-                       << it.v[i - 1].key << " (element " << it.v[i - 1].id << ", at " << it.v[i - 1].t_arrive << ")";
+                       << prev->key << " (element " << prev->id << ", at " << prev->t_arrive << "), both present throughout";
                     raise( "order", os.str());
                 }
+                prev = &it.v[i];
+            }
+        }
 
         // ---- (f) erase_at
         for ( Visit const& v : it.v ) {
